@@ -13,6 +13,7 @@ package main
 import (
 	"flag"
 	"fmt"
+	"runtime"
 	"runtime/debug"
 	"strings"
 	"sync"
@@ -32,7 +33,10 @@ func main() {
 	r := vk.New("model_checking")
 	debug.SetGCPercent(*gcp)
 	r.SetBudget(240*time.Second, 25*time.Minute)
-	k, n := 4, 5
+	if r.Quick() && runtime.GOMAXPROCS(0) > 8 {
+		runtime.GOMAXPROCS(8) // one chain per worker costs ~4 CPU-s to create: 8 workers keep the quick tier within ~150 CPU-s
+	}
+	k, n := 4, 4
 	if r.Thorough() {
 		k, n = 5, 8
 	}
@@ -47,8 +51,12 @@ func main() {
 		if *fams != "" && !strings.Contains(","+*fams+",", ","+f.Name+",") {
 			continue
 		}
-		if len(f.Ops) > n {
-			f.Ops = f.Ops[:n]
+		fn := n
+		if r.Quick() && *nflag == 0 && f.QuickN > 0 {
+			fn = f.QuickN
+		}
+		if len(f.Ops) > fn {
+			f.Ops = f.Ops[:fn]
 		}
 		sel = append(sel, f)
 	}
@@ -67,6 +75,16 @@ func main() {
 			for _, seg := range strings.Split(parts[1], "|") {
 				res := e.Call(f.Path, "Do", seg)
 				fmt.Printf("== tx Do(%q): ok=%v %s %s\n", seg, res.OK, res.Data, rx.FirstLine(res.Log))
+				pid := rx.PkgID(f.Path)
+				for _, n := range []int{2} {
+					mh, _ := e.C.Get("main", fmt.Sprintf("%s:%d", pid, n))
+					ov, _ := e.C.Get("base", fmt.Sprintf("oid:%s:%d", pid, n))
+					oh := ""
+					if len(ov) >= 20 {
+						oh = ov[:20]
+					}
+					fmt.Printf("   package block :%d  iavl-hash=%x stored-hash=%x\n", n, mh, oh)
+				}
 				for _, is := range g.Check(e, f.Paths()) {
 					fmt.Printf("   ISSUE %s: %s\n", is.Kind, is.Detail)
 				}
